@@ -60,6 +60,20 @@ def cases(tier, seed):
             e['delay'] = d2
         s['circuit']['edges'].append(['a/to/v', 'r/fo/fb', None, e])
         add(s, 'feedback')
+    # nodes with two operators (source and target operator in one node, either declaration order), and a chain in
+    # which the delayed source is itself driven through a delayed edge
+    for d1, d2 in itertools.product(D[1:], D):
+        for order in (('ro', 'to'), ('to', 'ro')):
+            tpls = {f'M{i}': [[o, ({'c': 0.5 + 0.25 * i, 'z': 0.25 + 0.5 * i} if o == 'ro' else {'v': 0.1 * (i + 1)})]
+                              for o in order] for i in (0, 1)}
+            e = [['m0/ro/z', 'm1/to/u', None, {'weight': 2.0, 'delay': d1}], ['m1/ro/z', 'm0/to/u', None, {'weight': -0.5}]]
+            if d2 is not None:
+                e[1][3]['delay'] = d2
+            add({'ops': OPS, 'node_tpls': tpls, 'edge_tpls': {}, 'share': True,
+                 'circuit': {'name': 'net', 'nodes': {'m0': 'M0', 'm1': 'M1'}, 'edges': e}}, 'two_operator_nodes')
+        s = make(['r'], ['a', 'b'], [edge('r', 'a', d2, 0)])
+        s['circuit']['edges'].append(['a/to/v', 'b/to/u', None, {'weight': 3.0, 'delay': d1}])
+        add(s, 'chain')
     # matrix (Connectivity) edges: two connections that leave one population variable with their own delays
     from . import C16
     T = C16.DT
@@ -82,7 +96,7 @@ def cases(tier, seed):
 
 def describe(tier, seed):
     return {'rule': 'ramp sources (every step a distinct value) x 1-3 targets x per-edge delay in {none, 2dt, 3dt, 2.4dt, '
-                    '2.6dt, 5dt} for shared-source, parallel, shared-target and feedback topologies x vectorize; euler '
+                    '2.6dt, 5dt} for shared-source, parallel, shared-target, feedback, chain and two-operator-node topologies, two delayed Connectivity objects from one population variable x vectorize; euler '
                     'trajectories of run() row by row vs the reference recurrence with explicit history (src[k-D], 0 before '
                     'start, undelayed edges src[k]); non-trivial = at least one delayed edge',
             'bounds': {'targets': 2 if tier == 'quick' else 3, 'steps': 14}}
